@@ -376,6 +376,7 @@ def inline_new_helpers(d):
                     okb = b_['term']['k'] == 'Call' and b_['term']['callee']['path'].endswith('from_residual') and b_['term']['dest']['local'] == 0 and not b_['term']['dest']['proj']
                     if okc and okb:
                         thread = dict(x=c0['place'], Tc=Tc, Tr=b_['term']['target'], pre=pre_)
+
         except Exception:
             thread = None
         nblocks = hblocks
@@ -411,6 +412,10 @@ def inline_new_helpers(d):
                     kind = None
                     if rv['k'] == 'Aggregate' and rv.get('adt') == 'std::result::Result' and rv.get('variant') in ('Ok', 'Err') and len(rv['ops']) == 1:
                         kind = 'ok' if rv['variant'] == 'Ok' else 'err'
+                if kind is None and si == 'term' and re.match(r'^std::result::Result<\(\), ', rty) and nblocks[i]['term'].get('target') is not None:
+                    # a tail call whose Result is the helper's own (`self.add_item(..)` as the last expression of a unit helper): that
+                    # path is not threaded, it hands its value to the caller's `?` as before (the unit unpacked there carries nothing)
+                    kind = 'passthrough'
                 if kind is None:
                     allclean = False
                     break
@@ -436,19 +441,27 @@ def inline_new_helpers(d):
                     clones = []
                     for j in order:
                         nb = json.loads(json.dumps(nblocks[j]))
-                        if nb['term']['k'] == 'Return':
+                        if nb['term']['k'] == 'Return' and kind == 'passthrough':
+                            nb['term'] = {'k': 'Goto', 'target': T, 'span': nb['term']['span']}
+                        elif nb['term']['k'] == 'Return':
                             nb['term'] = {'k': 'Goto', 'target': thread['Tc'] if kind == 'ok' else thread['Tr'], 'span': nb['term']['span']}
                         else:
                             _retarget(nb['term'], lambda x: remap.get(x - bb, x))
                         clones.append(nb)
-                    if si == 'term':
+                    if si == 'term' and kind == 'passthrough':
+                        t = nblocks[i]['term']
+                        t['dest'] = json.loads(json.dumps(D))        # the call writes the caller's place directly
+                        t['target'] = remap[t['target'] - bb]
+                    elif si == 'term':
                         t = nblocks[i]['term']
                         t['dest'] = {'local': 0, 'proj': [], 'ty': C['locals'][0]['ty']}
                         t['target'] = remap[t['target'] - bb]
                     else:
                         st = nblocks[i]['stmts'][si]
                         op = st['rv']['ops'][0]
-                        if kind == 'ok':
+                        if kind == 'ok' and thread['x'] is None:
+                            nblocks[i]['stmts'][si:si + 1] = json.loads(json.dumps(thread['pre']))
+                        elif kind == 'ok':
                             nblocks[i]['stmts'][si] = {'k': 'Assign', 'place': json.loads(json.dumps(thread['x'])), 'rv': {'k': 'Use', 'op': op}, 'span': st['span'], 'inl': True}
                             nblocks[i]['stmts'][si + 1:si + 1] = json.loads(json.dumps(thread['pre']))
                         else:
@@ -458,7 +471,8 @@ def inline_new_helpers(d):
                     extra.extend(clones)
                 nblocks = nblocks + extra
                 # the continuation no longer unpacks the ControlFlow value
-                C['blocks'][thread['Tc']]['stmts'] = C['blocks'][thread['Tc']]['stmts'][1:]
+                if thread['x'] is not None and not any(k_ == 'passthrough' for (_i, _s, k_, _r) in plans):
+                    C['blocks'][thread['Tc']]['stmts'] = C['blocks'][thread['Tc']]['stmts'][1:]
             else:
                 thread = None
         if not thread:
